@@ -50,4 +50,65 @@ example : hardExcluded ["tmp".toList, "build".toList, "proj".toList]
     hardExcluded ["tmp".toList, "proj".toList] (["tmp".toList, "proj".toList] ++ ["build".toList, "a.py".toList]) = true := by
   decide
 
+/-! ## Every spelling of a location resolves to the same path -/
+
+theorem walkSegs_append (start : Path) (a b : List Name) : walkSegs start (a ++ b) = walkSegs (walkSegs start a) b := by
+  induction a generalizing start with
+  | nil => rfl
+  | cons seg rest ih =>
+    simp only [List.cons_append, walkSegs]
+    split
+    · exact ih start
+    · split
+      · exact ih _
+      · exact ih _
+
+/-- plain names just extend the path -/
+theorem walkSegs_plain (start : Path) (names : List Name) (h : ∀ n ∈ names, isSpecial n = false) : walkSegs start names = start ++ names := by
+  induction names generalizing start with
+  | nil => simp [walkSegs]
+  | cons n rest ih =>
+    have hn := h n (by simp)
+    simp only [isSpecial, Bool.or_eq_false_iff] at hn
+    simp only [walkSegs, hn.1.1, hn.1.2, hn.2, Bool.false_or, Bool.false_eq_true, if_false]
+    rw [ih _ (fun m hm => h m (by simp [hm]))]
+    simp
+
+/-- **"./" and empty segments change nothing** -/
+theorem dot_is_neutral (start : Path) (a b : List Name) :
+    walkSegs start (a ++ [['.']] ++ b) = walkSegs start (a ++ b) ∧ walkSegs start (a ++ [[]] ++ b) = walkSegs start (a ++ b) := by
+  constructor <;> simp [walkSegs_append, walkSegs]
+
+/-- **"name/.." changes nothing** -/
+theorem name_dotdot_cancels (start : Path) (a b : List Name) (n : Name) (hn : isSpecial n = false) :
+    walkSegs start (a ++ [n, ['.', '.']] ++ b) = walkSegs start (a ++ b) := by
+  simp only [isSpecial, Bool.or_eq_false_iff] at hn
+  simp [walkSegs_append, walkSegs, hn.1.1, hn.1.2, hn.2]
+
+/-- **The absolute spelling and the relative spelling from any working directory name the same path**: walking
+    `rel` from `cwd` equals walking `cwd ++ rel` from the root, when `cwd` itself is a resolved path -/
+theorem relative_eq_absolute (cwd : Path) (rel : List Name) (hcwd : ∀ n ∈ cwd, isSpecial n = false) :
+    resolveSpelling cwd false rel = resolveSpelling cwd true (cwd ++ rel) := by
+  unfold resolveSpelling
+  simp only [Bool.false_eq_true, if_false, if_true]
+  rw [walkSegs_append, walkSegs_plain [] cwd hcwd]
+  simp
+
+/-- a resolved path is its own resolution -/
+theorem resolve_idempotent (p : Path) (hp : ∀ n ∈ p, isSpecial n = false) : resolveSpelling [] true p = p := by
+  unfold resolveSpelling
+  simp only [if_true]
+  rw [walkSegs_plain [] p hp]; simp
+
+/-- consequence for the linter: from a sub-directory, `..`-spellings reach the same project-relative path, so the
+    exclusion / ignore decisions (which only see the path inside the project) are the same -/
+theorem spelling_does_not_change_decisions (above q : Path) (sub : Name) (hsub : isSpecial sub = false)
+    (habove : ∀ n ∈ above, isSpecial n = false) (hq : ∀ n ∈ q, isSpecial n = false) :
+    checkPath above (resolveSpelling (above ++ [sub]) false (['.', '.'] :: q)) = q := by
+  unfold resolveSpelling
+  simp only [Bool.false_eq_true, if_false, walkSegs]
+  have : (above ++ [sub]).dropLast = above := by simp
+  rw [this, walkSegs_plain above q hq]
+  exact checkPath_relocate above q
+
 end ThaiLintModel.C09
